@@ -56,6 +56,7 @@ type Obligation struct {
 	subs       []subQuery
 	full       *smt.Query
 	skolemized bool
+	failQ      *smt.Query
 	Cases      int
 	FailText   string
 }
@@ -566,6 +567,7 @@ func (o *Obligation) Discharge(solvers []smt.SolverSpec, dir string, timeoutSec,
 				o.Status = "failed"
 				o.Output = r.Output
 				o.FailText = o.ctx.C.Print(s.q, false)
+				o.failQ = s.q
 				o.Model = map[string]string{}
 				for j, in := range o.Inputs {
 					if j < len(r.Values) {
@@ -605,6 +607,7 @@ func (o *Obligation) Discharge(solvers []smt.SolverSpec, dir string, timeoutSec,
 		o.Status = "discharged"
 	case r.Status == smt.Sat:
 		o.Status = "failed"
+		o.failQ = o.full
 		o.Model = map[string]string{}
 		for i, in := range o.Inputs {
 			if i < len(r.Values) {
